@@ -50,6 +50,10 @@ SET_PROGS = [
     "sorted(list(s), key = fn(x) length(x))", "grouped(sorted(s), cmp = fn(a, b) 0)", "unique(s, key = fn(x) length(x))",
     "min(list(s), key = fn(x) length(x))", "max(list(s), key = fn(x) 0)", "first(sorted(s, key = fn(x) 0))",
     "type(s)", "set(list(s))", "parse_json(string(list(s)))", "for_each(s, fn(x) x); 1", "permutations(list(s))[0]",
+    # comprehensions whose result depends on the enumeration order of the source (colliding keys, first match)
+    "<<<length(x) => x for x in s>>>", "<<<x[0] => x for x in s + 'ab'>>>", "<<<1 => x for x in s>>>",
+    "string(<<<length(x) => x for x in s>>>)", "[x for x in <<length(x) for x in s>>]", "<<[length(x), x] for x in s>>",
+    "<<<k => v for [k, v] in [[length(x), x] for x in s]>>>", "def r = NULL; for x in s do r = x end; r",
     # operators with a set operand
     "['head'] + s", "def acc = ['x']; acc += s; acc", "add([0], s)", "[] + s + t", "s + ['z']", "string(s - 'a')", "list(s) + list(t)",
     "[1] * 2 + s", "s == t", "[s, t]", "<<s, t>>", "sum([length(x) for x in s])", "zip(s, t)", "enumerate(s)", "first(s + t)",
